@@ -13,6 +13,7 @@
        in which case the supervisor must fail (RuntimeError);
      * the supervisor exits, with status 0, exactly when every worker finished;
      * a process in which fork returned 0 returns its own id and has it as task id.
+        * an exception raised by os.fork / os.wait (kind given by ek) ends the call, unchanged, at once.
    Environment assumption (rely): fork never returns the pid of a worker that is
    still running (true of every real kernel).  A trace that breaks it yields
    EnvBroken and nothing is required of the rest.                               *)
@@ -67,20 +68,21 @@ Definition is_child_of (i : nat) (o : outcome) : bool :=
 Definition is_exit0 (o : outcome) : bool :=
   match o with OExit c => c =? 0 | _ => false end.
 Definition is_toomany (o : outcome) : bool := match o with OTooMany => true | _ => false end.
-Definition is_outofforks (o : outcome) : bool := match o with OOutOfForks => true | _ => false end.
-Definition is_outofwaits (o : outcome) : bool := match o with OOutOfWaits => true | _ => false end.
+(* an exception raised by os.fork / os.wait must come out of the call unchanged *)
+Definition is_forkerr (k : nat) (o : outcome) : bool := match o with OForkErr k' => Nat.eqb k' k | _ => false end.
+Definition is_waiterr (k : nat) (o : outcome) : bool := match o with OWaitErr k' => Nat.eqb k' k | _ => false end.
 Definition is_nil {A} (l : list A) : bool := match l with [] => true | _ => false end.
 
 (* ---------- supervision phase ---------- *)
-Fixpoint spec_sup (n : nat) (budget : Z) (w : wmap) (r : Z) (tr : list event) (o : outcome)
+Fixpoint spec_sup (ek : nat * nat) (n : nat) (budget : Z) (w : wmap) (r : Z) (tr : list event) (o : outcome)
   {struct tr} : verdict :=
   if all_finished n w then accept_if (is_nil tr && is_exit0 o)
   else
     match tr with
-    | [] => accept_if (is_outofwaits o)
+    | [] => accept_if (is_waiterr (snd ek) o)
     | EWait pid st :: tr1 =>
       match owner n w pid with
-      | None => spec_sup n budget w r tr1 o          (* unknown pid: nothing may happen *)
+      | None => spec_sup ek n budget w r tr1 o          (* unknown pid: nothing may happen *)
       | Some i =>
         match tr1 with
         | ELog i' pid' k :: tr2 =>
@@ -89,15 +91,15 @@ Fixpoint spec_sup (n : nat) (budget : Z) (w : wmap) (r : Z) (tr : list event) (o
             if r + 1 >? budget then accept_if (is_nil tr2 && is_toomany o)
             else
               match tr2 with
-              | [] => accept_if (is_outofforks o)
+              | [] => accept_if (is_forkerr (fst ek) o)
               | EFork i'' p :: tr3 =>
                 if negb (Nat.eqb i'' i) then Reject
                 else if p =? 0 then accept_if (is_nil tr3 && is_child_of i o)
                 else if pid_live n (upd w i Finished) p then EnvBroken
-                else spec_sup n budget (upd w i (Running p)) (r + 1) tr3 o
+                else spec_sup ek n budget (upd w i (Running p)) (r + 1) tr3 o
               | _ => Reject
               end
-          else spec_sup n budget (upd w i Finished) r tr2 o
+          else spec_sup ek n budget (upd w i Finished) r tr2 o
         | _ => Reject
         end
       end
@@ -105,18 +107,18 @@ Fixpoint spec_sup (n : nat) (budget : Z) (w : wmap) (r : Z) (tr : list event) (o
     end.
 
 (* ---------- start-up phase: ids in order ---------- *)
-Fixpoint spec_init (n : nat) (budget : Z) (ids : list nat) (w : wmap) (tr : list event) (o : outcome)
+Fixpoint spec_init (ek : nat * nat) (n : nat) (budget : Z) (ids : list nat) (w : wmap) (tr : list event) (o : outcome)
   {struct ids} : verdict :=
   match ids with
-  | [] => spec_sup n budget w 0 tr o
+  | [] => spec_sup ek n budget w 0 tr o
   | i :: ids' =>
     match tr with
-    | [] => accept_if (is_outofforks o)
+    | [] => accept_if (is_forkerr (fst ek) o)
     | EFork i' p :: tr1 =>
       if negb (Nat.eqb i' i) then Reject
       else if p =? 0 then accept_if (is_nil tr1 && is_child_of i o)
       else if pid_live n w p then EnvBroken
-      else spec_init n budget ids' (upd w i (Running p)) tr1 o
+      else spec_init ek n budget ids' (upd w i (Running p)) tr1 o
     | _ => Reject
     end
   end.
@@ -144,7 +146,7 @@ Definition want_procs (nprocs : option Z) (cpu : nat) : nat :=
 Definition want_budget (maxr : option Z) : Z :=
   match maxr with Some m => m | None => 100 end.
 
-Definition spec_check (pre_task : option nat) (nprocs : option Z) (cpu : nat) (maxr : option Z)
+Definition spec_check (ek : nat * nat) (pre_task : option nat) (nprocs : option Z) (cpu : nat) (maxr : option Z)
            (res : result) : verdict :=
   match pre_task with
   | Some t =>
@@ -155,7 +157,7 @@ Definition spec_check (pre_task : option nat) (nprocs : option Z) (cpu : nat) (m
     match r_trace res with
     | EStart n' :: tr =>
       if negb (Nat.eqb n' n && task_ok (r_out res) (r_task res)) then Reject
-      else spec_init n (want_budget maxr) (seq 0 n) (fun _ => NotStarted) tr (r_out res)
+      else spec_init ek n (want_budget maxr) (seq 0 n) (fun _ => NotStarted) tr (r_out res)
     | _ => Reject
     end
   end.
